@@ -130,6 +130,10 @@ func printSummary(ex *Explorer, d time.Duration, verbose bool) {
 		if seen[key] == 1 {
 			mj, _ := json.Marshal(v.Model)
 			fmt.Printf("  VIOLATION %s kind=%s class=[%s] where=%s msg=%s\n    model=%s choices=%v\n", v.ID, v.Kind, v.Class, v.Where, v.Msg, mj, v.Choices)
+			if len(v.StrModel) > 0 {
+				sj, _ := json.Marshal(v.StrModel)
+				fmt.Printf("    strings=%s\n", sj)
+			}
 		}
 	}
 	for k, n := range seen {
